@@ -306,8 +306,11 @@ for line in sys.stdin:
     cmd = line.strip()
     if cmd == "stat":
         ac = getattr(server, "active_children", None)
+        import hashlib
+        envh = hashlib.sha1(repr(sorted(os.environ.items())).encode("utf-8", "replace")).hexdigest()[:16]
         ctl.write(json.dumps({"active_children": len(ac) if ac else 0, "threads": threading.active_count(),
-                              "serving": t.is_alive()}) + "\n")
+                              "serving": t.is_alive(), "environ": envh, "cwd": os.getcwd(),
+                              "environ_keys": sorted(k for k in os.environ if k.isupper())[:80]}) + "\n")
         ctl.flush()
     elif cmd == "quit":
         break
@@ -484,6 +487,10 @@ def _exchange(port, rq, barrier=None, handshake_first=True, timeout=None, connec
                 s = _client_ctx().wrap_socket(s)
             if barrier is not None:
                 barrier.wait(30)
+            try:
+                myport = s.getsockname()[1]
+            except OSError:
+                myport = None
             payload = rq["data"].encode("latin-1")
             if send_delay and split_at:
                 # a slow client: the first byte(s) of the request now, the rest later
@@ -506,6 +513,9 @@ def _exchange(port, rq, barrier=None, handshake_first=True, timeout=None, connec
                 data += chunk
         finally:
             s.close()
+        if myport is not None:
+            # a script that echoes REMOTE_PORT must echo THIS connection's port
+            data = data.replace(b"REMOTE_PORT=%d\n" % myport, b"REMOTE_PORT=<this connection>\n")
     except Exception as e:   # noqa
         err = type(e).__name__ + ": " + str(e)
         if barrier is not None:
@@ -614,6 +624,7 @@ def c14_stress(job, drv):
             logb = os.path.join(w.tmp, "log-b-%s.txt" % servertype)
             b = Server(repo, conf, logb)
             try:
+                stat0 = b.stat()
                 for bi, bspec in enumerate(job["bursts"]):
                     if isinstance(bspec, list):
                         bspec = {"names": bspec}
@@ -654,6 +665,7 @@ def c14_stress(job, drv):
                             s = socket.create_connection(("127.0.0.1", b.port), timeout=CLIENT_TIMEOUT)
                             if rq["tls"]:
                                 s = _client_ctx().wrap_socket(s)
+                            bport = s.getsockname()[1]
                             payload = rq["data"].encode("latin-1")
                             s.sendall(payload[:1])
                             time.sleep(0.05)                 # the worker has picked the connection up
@@ -670,7 +682,7 @@ def c14_stress(job, drv):
                                     break
                                 data += chunk
                             s.close()
-                            box["b"] = (data, None)
+                            box["b"] = (data.replace(b"REMOTE_PORT=%d\n" % bport, b"REMOTE_PORT=<this connection>\n"), None)
                         except Exception as e:   # noqa
                             box["b"] = (b"", type(e).__name__ + ": " + str(e))
                             started.set()
@@ -718,8 +730,13 @@ def c14_stress(job, drv):
                     d, e = _exchange(b.port, job["requests"][pn])
                     if e or _mask(d) != refs[pn]:
                         probe_bad.append({"request": pn, "error": e, "got": _mask(d)[:200].decode("latin-1")})
+                keys_now = stats.pop("environ_keys", [])
+                keys_then = stat0.get("environ_keys", [])
+                stats = dict(stats)
                 out["after"] = {"stat": stats, "child_processes_running": running, "zombies": zombies,
-                                "probe_ok": not probe_bad, "probe_error": probe_bad[:3] or None}
+                                "probe_ok": not probe_bad, "probe_error": probe_bad[:3] or None,
+                                "process_state_unchanged": (stats["environ"] == stat0["environ"] and stats["cwd"] == stat0["cwd"]),
+                                "environ_keys_added": sorted(set(keys_now) - set(keys_then))}
             finally:
                 out["left_behind"] = b.stop()
             # ---- perturbed start-up bursts (threads share the lazies; forked children each have their own) ----
